@@ -68,14 +68,46 @@ Definition on_line (gs : list gfile) (ord : list nat) (S : nat) : Prop :=
         (vget (g_ipp g) r ==
          vget (g_ipp g0) r + (if 1 <? S then NQ (k mod S) * (vget (g_ipp g1) r - vget (g_ipp g0) r) else 0))%Q.
 
-(** The same, stated on the SOURCES (independent of the order the sorter produces): shared frame; every file
-    is displaced from a common origin [o] proportionally to its slice position ([f_pos] = the wrapper's
-    slice indicator) along a common vector [d]; and the stack's distinct slice positions, in ascending
-    order, form an EXACT arithmetic progression (the code only checks this to 4 %). *)
+(** [on_line] up to a per-file error vector [e k] (k = position in the sorted list): the general form behind the
+    error bound for irregularly spaced series *)
+Definition on_line_dev (gs : list gfile) (ord : list nat) (S : nat) (e : nat -> nat -> Q) : Prop :=
+  exists g0 g1,
+    file_at gs ord 0 = Some g0 /\ (1 < S -> file_at gs ord 1 = Some g1) /\
+    forall k g, file_at gs ord k = Some g ->
+      same_frame g g0 /\
+      forall r, r < 3 ->
+        (vget (g_ipp g) r ==
+         vget (g_ipp g0) r + (if 1 <? S then NQ (k mod S) * (vget (g_ipp g1) r - vget (g_ipp g0) r) else 0) + e k r)%Q.
+
+(** The sorter's slice position of every file ([f_pos], what the files are sorted by) IS the geometric slice
+    indicator ipp . normal of that file (both are read from the same DicomWrapper; compared on every
+    correspondence case). *)
+Definition positions_ok (gs : list gfile) (st : state) : Prop :=
+  forall f g, In f (files st) -> glookup gs (f_id f) = Some g -> (this (f_pos f) == slice_indicator g)%Q.
+
+(** Geometry of the SOURCES (independent of the order the sorter produces): all files share orientation and
+    pixel spacing, and every file is displaced from a common origin [o] proportionally to its slice indicator
+    along a common vector [d] (for orthonormal direction cosines: d = the slice normal). *)
+Definition sources_line (gs : list gfile) (st : state) (d : list Q) : Prop :=
+  exists (g0 : gfile) (o : list Q),
+    forall f g, In f (files st) -> glookup gs (f_id f) = Some g ->
+      same_frame g g0 /\
+      forall r, r < 3 -> (vget (g_ipp g) r == vget o r + slice_indicator g * vget d r)%Q.
+
+(** ... and the stack's distinct slice positions, in ascending order, form an EXACT arithmetic progression (the
+    code only checks this to 4 %). *)
 Definition sources_regular (gs : list gfile) (st : state) : Prop :=
-  exists (g0 : gfile) (o d : list Q) (p0 dp : Q),
-    (forall f g, In f (files st) -> glookup gs (f_id f) = Some g ->
-       same_frame g g0 /\
-       forall r, r < 3 -> (vget (g_ipp g) r == vget o r + this (f_pos f) * vget d r)%Q) /\
-    (forall s, s < length (pos_vals st) ->
-       (this (nth s (ssort qc_leb (pos_vals st)) (Q2Qc 0)) == p0 + NQ s * dp)%Q).
+  (exists d, sources_line gs st d) /\
+  exists p0 dp : Q,
+    forall s, s < length (pos_vals st) ->
+      (this (nth s (ssort qc_leb (pos_vals st)) (Q2Qc 0)) == p0 + NQ s * dp)%Q.
+
+(** deviation of slice s from the regular lattice spanned by the first two positions:
+    (P[s] - P[0]) - s (P[1] - P[0])  =  sum over j < s of (gap_j - gap_0),  gap_j = P[j+1] - P[j] *)
+Definition pos_at (P : list Qc) (s : nat) : Q := this (nth s P (Q2Qc 0)).
+Definition slice_dev (P : list Qc) (s : nat) : Q := (pos_at P s - pos_at P 0 - NQ s * (pos_at P 1 - pos_at P 0))%Q.
+Fixpoint gap_excess (P : list Qc) (s : nat) : Q :=
+  match s with
+  | 0 => 0%Q
+  | Datatypes.S j => (gap_excess P j + ((pos_at P (Datatypes.S j) - pos_at P j) - (pos_at P 1 - pos_at P 0)))%Q
+  end.
